@@ -7,6 +7,7 @@ import Ruint.Lemmas.Codec.Der
 import Ruint.Lemmas.Codec.Serde
 import Ruint.Lemmas.Codec.Postgres
 import Ruint.Lemmas.Codec.PostgresNumeric
+import Ruint.Lemmas.Codec.TableTie
 /-!
 # C16 — every codec integration round-trips and emits its format's reference encoding
 
@@ -183,5 +184,22 @@ example : Scale.encCompact 0x3fff = [0xfd, 0xff] ∧ Scale.encCompact 0x4000 = [
 example : Scale.encCompact (2 ^ 30) = [0x03, 0, 0, 0, 0x40] := by decide
 example : Der.enc 128 = [0x02, 0x02, 0x00, 0x80] ∧ Der.enc 0 = [0x02, 0x01, 0x00] := by decide
 example : Der.dec 256 [0x02, 0x02, 0x00, 0x80] = .ok 128 := by decide
+
+/-! ### mode boundaries and prefix constants re-extracted from the codec sources (`Gen/CodecTable.lean`)
+
+The bit-length ranges of SCALE `CompactRefUint::size_hint` / `encode_to` with their sizes, integer widths and mode tags, the
+big-integer prefix constants and `COMPACT_BITS_LIMIT` (`src/support/scale.rs`), and the single-byte threshold, `MAX_BITS` and the
+long-form comparison of alloy-rlp `length()` / `encode()` (`src/support/alloy_rlp.rs`) are extracted as data on every run;
+interpreted row by row they are the encoder models of the theorems above, for every value. A changed boundary, size, width,
+tag, prefix or comparison breaks this obligation for every input at once. -/
+
+open Ruint.Codec.TableTie Ruint.Gen.CodecTable in
+theorem gen_codec_tables (bits v : ℕ) :
+    hintT scaleHintModes v = Ruint.Codec.Scale.sizeHintCompact v
+    ∧ encT scaleEncModes scaleBig v = Ruint.Codec.Scale.encCompact v
+    ∧ scaleBitsLimit = Ruint.Codec.Scale.compactBitsLimit
+    ∧ rlpLengthT rlpLen v = Ruint.Codec.Rlp.lengthImpl v
+    ∧ (2 < nlimbs bits → rlpEncT rlpSingle rlpMaxBits rlpLongCmp bits v = Ruint.Codec.Rlp.encImpl bits v) :=
+  ⟨scale_hint_eq v, scale_enc_eq v, scale_limit_eq, rlp_lengthT_eq v, rlp_enc_eq bits v⟩
 
 end Ruint.C16
